@@ -10,7 +10,7 @@ var kinds = []string{
 	"left", "left", "right", "right", // 3' overlap (A first) / 5' overlap (B first)
 	"b_in_a", "a_in_b", // containment, both ways
 	"same_start", "same_end", "identical",
-	"short_overlap",     // 0..3 shared columns
+	"short_overlap",    // 0..3 shared columns
 	"gap", "unrelated", // no overlap
 	"min_overlap_edge", // overlap = min-overlap -1 / +0 / +1
 }
@@ -256,10 +256,16 @@ func genPair(t *rapid.T, maxLen int) pairCase {
 		if lb > la {
 			la, lb = lb, la
 		}
+		if rapid.Bool().Draw(t, "small_overhang") { // a short penalised overhang can still be optimal
+			lb = max(1, la-rapid.IntRange(0, 3).Draw(t, "overhang"))
+		}
 		s = spread(t, "offset", 0, la-lb)
 	case "a_in_b":
 		if la > lb {
 			la, lb = lb, la
+		}
+		if rapid.Bool().Draw(t, "small_overhang") {
+			la = max(1, lb-rapid.IntRange(0, 3).Draw(t, "overhang"))
 		}
 		s = -spread(t, "offset", 0, lb-la)
 	case "same_start":
